@@ -97,6 +97,7 @@ package fiber
 //@   atcall @fasthttp.AppendUnquotedArg: decodes-this-path: str(src) == c.pathOriginal
 //@   atcall @utils.ToLowerBytes: lowers-own-buffer: arr(c.path) != arr(b) && b == c.detectionPath
 //@   atcall @utils.ToLowerBytes: folds-copy-of-path: str(b) == str(c.path)
+//@   atcall @utils.TrimRight: trims-the-folded-path: s == c.detectionPath && str(s) == foldCase(str(c.path), c.app.config.CaseSensitive)
 //@   ensures path-is-original: !c.app.config.UnescapePath ==> str(c.path) == c.pathOriginal
 //@   ensures path-is-unescaped-original: c.app.config.UnescapePath ==> str(c.path) == unquoted(c.pathOriginal)
 //@   ensures detection-same: c.app.config.CaseSensitive && c.app.config.StrictRouting ==> str(c.detectionPath) == str(c.path)
@@ -105,7 +106,7 @@ package fiber
 //@   ensures hash-from-detection: c.treePathHash == hash3(str(c.detectionPath))
 // what the matcher relies on when it cuts parameter values out of path at offsets computed on detectionPath
 // (assumed as paths-wf by (*App).next, required by getMatch): never longer, byte-wise equal up to ASCII case
-//@   ensures [C05 C07 C02] detection-folds-path: len(c.detectionPath) <= len(c.path) && forall(k, 0, len(c.detectionPath), c.detectionPath[k] == c.path[k] || c.detectionPath[k] == lowerb(c.path[k]))
+//@   ensures [C05 C07 C02] detection-folds-path: len(c.detectionPath) <= len(c.path) && forall(k, 0, len(c.detectionPath), str(c.detectionPath)[k] == str(c.path)[k] || str(c.detectionPath)[k] == lowerb(str(c.path)[k]))
 //@   ensures buffers-allocated: (arr(c.path) == 0 || allocated(arr(c.path))) && (arr(c.detectionPath) == 0 || allocated(arr(c.detectionPath)))
 //@   ensures wf: arr(c.path) == 0 || arr(c.path) != arr(c.detectionPath)
 
